@@ -23,7 +23,12 @@ func digits(s string, a, b int) (int, bool) {
 }
 
 func c19Check(c *fw.Case, now time.Time, v string, d time.Duration, parsable bool, class string) {
-	for _, rel := range []bool{true, false} {
+	c19Forms(c, now, v, d, parsable, class, []bool{true, false})
+}
+
+// c19Forms judges one call per listed form, in the listed order.
+func c19Forms(c *fw.Case, now time.Time, v string, d time.Duration, parsable bool, class string, forms []bool) {
+	for _, rel := range forms {
 		c.Evals(1)
 		var out string
 		var err error
@@ -133,7 +138,7 @@ func init() {
 	fw.Register(&fw.Prop{
 		ID:        "C19",
 		Technique: "runtime monitor: arithmetic oracle on the produced 16-character SMPP time (relative: DD*86400+hh*3600+mm*60+ss == floor(d); absolute: UTC(now+d)), `now` passed explicitly",
-		Rule: "durations: every unit boundary +-1 s (59/60/61 s, 1 h, 24 h, 30 d 23:59:59, 31 d, 32 d, 99/100 d, 365 d, 100 y), negative and unparsable strings, random durations in every unit syntax time.ParseDuration accepts, sub-second parts; x relative and absolute form x `now` at leap day, year/century end, non-UTC zone and random instants 2000..2099; " +
+		Rule: "durations: every unit boundary +-1 s (59/60/61 s, 1 h, 24 h, 30 d 23:59:59, 31 d, 32 d, 99/100 d, 365 d, 100 y), negative and unparsable strings, random durations in every unit syntax time.ParseDuration accepts, sub-second parts; x relative and absolute form x `now` at leap day, year/century end, non-UTC zone and random instants 2000..2099; call sequences over a small pool of durations in every order of the two forms; the same calls with the process's time.Local set to seven zones (+05:30, +05:45, -08:00, +14:00, -12:00, +08:00, UTC); " +
 			"distinct_nontrivial = distinct (form, duration class, outcome) combinations",
 		Assumptions: []string{
 			"relative form: YY=MM=00 as the library documents; a duration the two day digits cannot carry may be refused with an error, never shortened",
@@ -189,6 +194,78 @@ func init() {
 					}
 					d, err := time.ParseDuration(v)
 					c19Check(c, nows(r), v, d, err == nil, class)
+				},
+			},
+			{
+				// the result must be a function of the arguments of THIS call: sequences of calls over a small pool of
+				// durations (so that equal strings recur) in every order of the two forms, refused values in between
+				Name: "sequence", N: q(40000, 40000000),
+				Run: func(c *fw.Case) {
+					r := c.R
+					pool := make([]string, r.Range(1, 4))
+					for i := range pool {
+						switch r.Intn(5) {
+						case 0:
+							pool[i] = fmt.Sprintf("%ds", r.Intn(100))
+						case 1:
+							pool[i] = fmt.Sprintf("%dh%dm", r.Intn(700), r.Intn(60))
+						case 2:
+							pool[i] = []string{"", "abc", "-5s", "1d"}[r.Intn(4)]
+						case 3:
+							pool[i] = (boundaries[r.Intn(len(boundaries))]).String()
+						default:
+							pool[i] = fmt.Sprintf("%dm%ds", r.Intn(50000), r.Intn(60))
+						}
+					}
+					n := r.Range(2, 10)
+					now := nows(r)
+					pattern := ""
+					for i := 0; i < n; i++ {
+						v := pool[r.Intn(len(pool))]
+						rel := r.Bool()
+						if r.Chance(1, 4) {
+							now = nows(r)
+						}
+						d, err := time.ParseDuration(v)
+						c19Forms(c, now, v, d, err == nil, "sequence", []bool{rel})
+						if i < 3 {
+							pattern += map[bool]string{true: "R", false: "A"}[rel]
+						}
+					}
+					c.Cover("sequence/" + pattern)
+				},
+			},
+			{
+				// the process's local time zone is part of the environment the library runs in, not of the request:
+				// the same calls with time.Local set to other zones (and `now` expressed in that zone)
+				Name: "localzone", N: q(20000, 20000000),
+				Run: func(c *fw.Case) {
+					r := c.R
+					zones := []struct {
+						name string
+						off  int
+					}{{"IST", 5*3600 + 1800}, {"PST", -8 * 3600}, {"LINT", 14 * 3600}, {"NPT", 5*3600 + 2700}, {"BIT", -12 * 3600}, {"CST", 8 * 3600}, {"UTC", 0}}
+					z := zones[c.Idx%uint64(len(zones))]
+					saved := time.Local
+					time.Local = time.FixedZone(z.name, z.off)
+					defer func() { time.Local = saved }()
+					var v string
+					switch r.Intn(4) {
+					case 0:
+						v = fmt.Sprintf("%ds", r.Intn(4000000))
+					case 1:
+						v = fmt.Sprintf("%dh%dm%ds", r.Intn(2400), r.Intn(60), r.Intn(60))
+					case 2:
+						v = (boundaries[r.Intn(len(boundaries))] + time.Duration(r.Intn(3)-1)*time.Second).String()
+					default:
+						v = fmt.Sprintf("%dm", r.Intn(200000))
+					}
+					d, err := time.ParseDuration(v)
+					now := nows(r)
+					if r.Bool() {
+						now = now.In(time.Local)
+					}
+					c19Check(c, now, v, d, err == nil, "zone"+z.name)
 				},
 			},
 		},
